@@ -1,0 +1,95 @@
+//go:build verif
+
+package ipfsproxy
+
+// Contracts for the govc verifier (/verif). Comment-only.
+
+// ---- assumed: response writer, RPC client, the cluster add pipeline (ghost counters) ----
+//@ ghost var httpResponses int
+//@ ghost var httpLastStatus int
+//@ ghost var rpcN int
+//@ ghost var rpcOK int
+//@ ghost var rpcLastSvc string
+//@ ghost var rpcLastMethod string
+//@ ghost var rpcLastArg any
+//@ ghost var addN int
+//@ ghost var served int
+
+//@ extern http.ResponseWriter.WriteHeader(statusCode)
+//@   ensures httpResponses == old(httpResponses) + 1 && httpLastStatus == statusCode
+//@   modifies httpResponses, httpLastStatus
+
+//@ extern http.ResponseWriter.Write(b)
+//@   modifies nothing
+
+// rpcOK counts the cluster operations that were actually performed (the call returned nil)
+//@ extern rpc.Client.Call(dest, svcName, svcMethod, args, reply)
+//@   ensures rpcN == old(rpcN) + 1 && rpcLastSvc == svcName && rpcLastMethod == svcMethod && rpcLastArg == args
+//@   ensures rpcOK == old(rpcOK) + ite(err == nil, 1, 0)
+//@   modifies rpcN, rpcOK, rpcLastSvc, rpcLastMethod, rpcLastArg, *reply
+
+//@ extern rpc.Client.CallContext(ctx, dest, svcName, svcMethod, args, reply)
+//@   ensures rpcN == old(rpcN) + 1 && rpcLastSvc == svcName && rpcLastMethod == svcMethod && rpcLastArg == args
+//@   ensures rpcOK == old(rpcOK) + ite(err == nil, 1, 0)
+//@   modifies rpcN, rpcOK, rpcLastSvc, rpcLastMethod, rpcLastArg, *reply
+
+// the add pipeline: puts blocks and pins the root (a mutating cluster operation)
+//@ extern adderutils.AddMultipartHTTPHandler(ctx, rpc, params, reader, w, outputTransform)
+//@   ensures addN == old(addN) + 1
+//@   modifies addN, httpResponses, httpLastStatus, rpcN, rpcOK, rpcLastSvc, rpcLastMethod, rpcLastArg
+
+// header bookkeeping only (writes to http.Header values and copies of the request); not verified
+//@ func (proxy *Server) setHeaders
+//@   opts trusted
+//@   modifies nothing
+
+//@ func ipfsErrorResponder
+//@   property C12
+//@   ensures httpResponses == old(httpResponses) + 1 && httpLastStatus == ite(code > 0, code, 500)
+//@   modifies httpResponses, httpLastStatus
+
+// pin add / pin rm: "performs the corresponding cluster operation on the requested path with the
+// requested options"; "answered with an error => no cluster operation performed"
+//@ func (proxy *Server) pinOpHandler
+//@   property C12
+//@   ensures [one-response] httpResponses == old(httpResponses) + 1
+//@   ensures [at-most-the-named-operation] rpcN == old(rpcN) || (rpcN == old(rpcN) + 1 && rpcLastSvc == "Cluster" && rpcLastMethod == op)
+//@   ensures [error-means-nothing-done] httpLastStatus >= 400 ==> rpcOK == old(rpcOK)
+//@   ensures [ok-means-done-once] httpLastStatus < 400 ==> rpcOK == old(rpcOK) + 1 && rpcN == old(rpcN) + 1
+//@   ensures [requested-mode-forwarded] rpcN == old(rpcN) + 1 ==> rpcLastArg == any(pinPath) && pinPath.Mode == ite(qget(q, "type") == "direct", api.PinModeDirect, api.PinModeRecursive)
+//@   ensures [requested-path-forwarded] rpcN == old(rpcN) + 1 ==> pinPath.Path == libfn("path.Path.String", 0, p) && p == libfn("path.ParsePath", 0, qget(q, "arg"))
+//@   ensures addN == old(addN)
+//@   modifies httpResponses, httpLastStatus, rpcN, rpcOK, rpcLastSvc, rpcLastMethod, rpcLastArg, heap(api.Pin), heap(api.PinPath)
+
+//@ func (proxy *Server) pinHandler
+//@   property C12
+//@   ensures rpcN == old(rpcN) || (rpcN == old(rpcN) + 1 && rpcLastSvc == "Cluster" && rpcLastMethod == "PinPath")
+//@   ensures httpLastStatus >= 400 ==> rpcOK == old(rpcOK)
+//@   modifies httpResponses, httpLastStatus, rpcN, rpcOK, rpcLastSvc, rpcLastMethod, rpcLastArg, heap(api.Pin), heap(api.PinPath)
+
+//@ func (proxy *Server) unpinHandler
+//@   property C12
+//@   ensures rpcN == old(rpcN) || (rpcN == old(rpcN) + 1 && rpcLastSvc == "Cluster" && rpcLastMethod == "UnpinPath")
+//@   ensures httpLastStatus >= 400 ==> rpcOK == old(rpcOK)
+//@   modifies httpResponses, httpLastStatus, rpcN, rpcOK, rpcLastSvc, rpcLastMethod, rpcLastArg, heap(api.Pin), heap(api.PinPath)
+
+// add: an option the proxy refuses (only-hash) or cannot parse is answered with an error and nothing is added
+//@ func (proxy *Server) addHandler
+//@   property C12
+//@   ensures [only-hash-refused] qget(q, "only-hash") == "true" ==> addN == old(addN) && rpcOK == old(rpcOK)
+//@   ensures [bad-options-refused] params == nil ==> addN == old(addN)
+//@   ensures [at-most-one-add] addN == old(addN) || addN == old(addN) + 1
+//@   modifies httpResponses, httpLastStatus, rpcN, rpcOK, rpcLastSvc, rpcLastMethod, rpcLastArg, addN, heap(api.Pin), heap(api.AddParams)
+
+// the {arg} path style: the inner handler sees ?arg=<path argument> and the rest of the query unchanged
+//@ fnvalue slashHandler.origHandler(w, r)
+//@   ensures served == old(served) + 1
+//@   modifies served, httpResponses, httpLastStatus, rpcN, rpcOK, rpcLastSvc, rpcLastMethod, rpcLastArg, addN
+
+//@ closure slashHandler#1
+//@   property C12
+//@   ensures [inner-called-once] served == old(served) + 1
+//@   ensures [arg-set] qget(q, "arg") == libfn("mux.Vars", 0, r)["arg"]
+//@   ensures [rest-of-query-kept] forall k string :: k != "arg" ==> (haskey(q, k) <==> haskey(libfn("url.URL.Query", 0, old(r.URL)), k)) && q[k] == libfn("url.URL.Query", 0, old(r.URL))[k]
+//@   ensures [query-rewritten] r.URL.RawQuery == libfn("url.Values.Encode", 0, q)
+//@   modifies served, httpResponses, httpLastStatus, rpcN, rpcOK, rpcLastSvc, rpcLastMethod, rpcLastArg, addN, heap(url.URL)
